@@ -198,6 +198,10 @@ func (c *completion) complete(args []string) []Completion {
 				if islong {
 					o = s.lookup.longNames[optname]
 				} else {
+					// Width of the first character as it was typed (an invalid
+					// byte decodes to U+FFFD, whose encoding is longer)
+					_, firstlen := utf8.DecodeRuneInString(optname)
+
 					for i, r := range optname {
 						sname := string(r)
 						o = s.lookup.shortNames[sname]
@@ -206,7 +210,7 @@ func (c *completion) complete(args []string) []Completion {
 							break
 						}
 
-						if i == 0 && o.canArgument() && len(optname) != len(sname) {
+						if i == 0 && o.canArgument() && len(optname) != firstlen {
 							canarg = false
 							break
 						}
